@@ -134,7 +134,8 @@ Section Decode.
   Hypothesis Hseg : forall j, (j < length segs)%nat ->
     nth j segs [] = enc_chunks (nth j css []) /\ Forall chunk_ok (nth j css []) /\
     dat_chunks (nth j css []) = plane g src (Z.of_nat j).
-  Hypothesis Hsize : zlen (stream_of segs) <= 2 ^ 32.
+  (* every segment offset fits the 32-bit header field (the encoder's offsetOverflow check) *)
+  Hypothesis Hnovf : overflows segs = false.
 
   Let n := nseg g.
   Let off := seg_off_dec g.
@@ -201,11 +202,18 @@ Section Decode.
   Lemma offs_in_range : Forall (fun o => 0 <= o < 2 ^ 32 /\ o <= zlen data) offs15.
   Proof.
     unfold offs15. apply Forall_app. split.
-    - apply Forall_forall. intros o Ho. destruct (In_nth _ _ 0 Ho) as (j & Hj & <-).
+    - apply Forall_forall. intros o Ho.
+      assert (Ho32 : o <= 4294967295).
+      { pose proof Hnovf as Hno. unfold overflows in Hno. fold offs in Hno.
+        destruct (Z.gtb_spec o 4294967295) as [Hgt|]; [|assumption].
+        assert (existsb (fun o0 => o0 >? 4294967295) offs = true).
+        { apply existsb_exists. exists o. split; [assumption|]. destruct (Z.gtb_spec o 4294967295); [reflexivity|lia]. }
+        congruence. }
+      destruct (In_nth _ _ 0 Ho) as (j & Hj & <-).
       unfold offs in Hj. rewrite offsets_from_length in Hj.
       destruct (off_j j Hj) as (_ & H1 & H2).
       destruct (seg_nonempty j Hj) as [_ H3]. pose proof (padseg_len (nth j segs [])).
-      fold data in Hsize. lia.
+      change (2 ^ 32) with 4294967296. lia.
     - apply Forall_forall. intros o Ho. apply repeat_spec in Ho. subst.
       pose proof (zlen_nonneg _ data). change (2 ^ 32) with 4294967296. lia.
   Qed.
